@@ -129,6 +129,11 @@ def run_property(pid, tier='quick', seed=0, repo='/repo', explain=None, quiet=Fa
             extra = mod.thorough(ctx) or {}
         except Exception as e:  # thorough extras never mask the verdict
             extra = {'thorough_error': traceback.format_exc()[-1500:]}
+    if tier == 'thorough' and repo == '/repo':
+        try:
+            extra['selftest'] = selftest(pid, mod)
+        except Exception:
+            extra['selftest'] = {'error': traceback.format_exc()[-800:]}
     known = load_known()
     known_keys = {k['key']: k for k in known.get('known', []) if k.get('property') == pid}
     new = []
@@ -203,3 +208,49 @@ def run_property(pid, tier='quick', seed=0, repo='/repo', explain=None, quiet=Fa
         for l in out_lines:
             print(l)
     return (1 if new else 0), ctx
+
+
+def selftest(pid, mod):
+    """Sensitivity demonstration (thorough tier): every entry of selftest/index.json for this property is a compiling edit of
+    /repo that breaks the property; it is applied to a scratch copy (outside /repo and /verif, removed afterwards), the facts are
+    re-extracted and the named rules must fire.  Never executes des code; does not change the verdict about /repo."""
+    import re, shutil, subprocess, tempfile
+    idx = os.path.join(VERIF, 'selftest', 'index.json')
+    if not os.path.exists(idx):
+        return {'entries': 0}
+    entries = [e for e in json.load(open(idx)) if e['property'] == pid and e.get('status') == 'fires']
+    res = []
+    known = {k['key'] for k in load_known().get('known', [])}
+    for e in entries:
+        S = tempfile.mkdtemp(prefix='scratch-', dir='/tmp')
+        try:
+            subprocess.check_call(['rsync', '-a', '--exclude', 'target', '--exclude', '.git', '/repo/', S + '/'])
+            ok = True
+            if e['kind'] in ('patch', 'rpatch'):
+                r = subprocess.run(['git', 'apply'] + (['-R'] if e['kind'] == 'rpatch' else []) + [os.path.join(VERIF, e['path'])], cwd=S, capture_output=True, text=True)
+                ok = r.returncode == 0
+            else:
+                p = os.path.join(S, e['file'])
+                src = open(p).read()
+                ok = len(re.findall(e['pattern'], src, flags=re.S)) == 1
+                if ok:
+                    open(p, 'w').write(re.sub(e['pattern'], e['replacement'], src, count=1, flags=re.S))
+            if not ok:
+                res.append({'id': e['id'], 'result': 'no longer applies'})
+                continue
+            try:
+                d, _ = get_facts(S, 'A')
+            except ExtractError:
+                res.append({'id': e['id'], 'result': 'does not compile'})
+                continue
+            ctx = Ctx(pid, 'quick', 0, {'A': Program(d, 'A')}, {})
+            try:
+                mod.run(ctx)
+            except (MissingAnchor, TooManyPaths) as ex:
+                ctx.violation('engine:%s' % ex, str(ex))
+            fired = sorted({v['key'].split(':')[0] for v in ctx.violations if v['key'] not in known})
+            hit = bool(set(e.get('expect_rules', [])) & set(fired))
+            res.append({'id': e['id'], 'what': e.get('what'), 'expected_rules': e.get('expect_rules'), 'fired_rules': fired, 'result': 'fired' if hit else 'SILENT'})
+        finally:
+            shutil.rmtree(S, ignore_errors=True)
+    return {'entries': len(res), 'fired': sum(1 for r in res if r['result'] == 'fired'), 'details': res}
